@@ -152,4 +152,29 @@ package nflog
 //@   nosafe
 //@   at call replaceFile).Close assert [rename-only-complete-snapshot] called("Log).Snapshot") && ret1("Log).Snapshot") == nil
 //@   ensures [error-reported] called("Log).Snapshot") && ret1("Log).Snapshot") != nil ==> result1 != nil
+//@   at call openReplace assert [collect-garbage-first] called("Log).GC") && ret1("Log).GC") == nil && arg0 == deref(snapf) && deref(snapf) != ""
+//@   at call Log).Snapshot assert [snapshot-into-the-temporary-file] called("openReplace") && ret1("openReplace") == nil
+//@   ensures [gc-error-reported] called("Log).GC") && ret1("Log).GC") != nil ==> result1 != nil && !called("openReplace")
+//@   ensures [no-file-no-snapshot] deref(snapf) == "" ==> !called("openReplace")
+//@   ensures [snapshot-whenever-a-file-is-configured] deref(snapf) != "" && called("Log).GC") && ret1("Log).GC") == nil ==> called("openReplace") && (ret1("openReplace") == nil ==> called("Log).Snapshot"))
+//@   ensures [open-error-reported] called("openReplace") && ret1("openReplace") != nil ==> result1 != nil && !called("Log).Snapshot")
+//@   ensures [success-means-renamed] result1 == nil && deref(snapf) != "" ==> called("replaceFile).Close") && ret("replaceFile).Close") == nil
+//@   ensures [failed-snapshot-discarded] called("Log).Snapshot") && ret1("Log).Snapshot") != nil ==> called("os.File).Close") && called("os.Remove") && !called("replaceFile).Close")
+//@   ensures [always-collects] called("Log).GC")
 //@   noeffect Log).GC Log).Snapshot openReplace replaceFile).Close
+// one maintenance run: the given action is executed exactly once and its error is handed back
+//@ func (*Log).Maintenance$2
+//@   props C11
+//@   nosafe
+//@   requires do != nil
+//@   ensures [runs-once-and-reports] count("dynamic:param:do") == 1 && result == ret1("dynamic:param:do")
+//@   noeffect dynamic:param:do
+// the maintenance loop: one run per tick, and - when a snapshot file is configured - one more on shutdown
+//@ func (*Log).Maintenance
+//@   props C11
+//@   nosafe
+//@   at call Maintenance$2 assert [runs-the-configured-action] arg0 != nil && (override != nil ==> arg0 == override)
+//@   ensures [one-run-per-tick-plus-shutdown] called("select") ==> count("Maintenance$2") == (snapf != "" ? count("select") : count("select") - 1)
+//@   ensures [missing-interval-or-stop-runs-nothing] (interval == 0 || stopc == nil) ==> !called("Maintenance$2") && !called("select")
+//@   loop 1 invariant count("Maintenance$2") == count("select") && count("select") >= 0
+//@   noeffect Maintenance$2 time.NewTicker Ticker).Stop
